@@ -176,9 +176,13 @@ def sphere_through(ctx, k):
     pts = ctx.reals('p', (k + 2, k + 1))
     d = det(pts[1:] - pts[:1], ctx)
     ctx.assume(d * d, '>', 0)
-    c, r = utils.sphere_through(np.array(pts, copy=True))
+    arg = np.array(pts, copy=True)
+    c, r = utils.sphere_through(arg)
+    ctx.ensure_eq('frame_argument_array_unchanged', arg, pts)          # the caller's array still holds the caller's points
     for i in range(k + 2):
         ctx.ensure_eq(f'point{i}_on_sphere', spec.nsq(pts[i] - c), r * r, tol=1e-6)
+    c_again, r_again = utils.sphere_through(arg)                        # and a second call on the same array gives the same sphere
+    ctx.ensure_eq('second_call_same_centre', c_again, c, tol=1e-6)
     ctx.ensure('radius_nonneg', r, '>=', 0)
     if k == 1:
         c2, r2 = utils.circle_through(pts[0], pts[1], pts[2])
